@@ -124,12 +124,26 @@ theorem restoreSvalue_zero (F : FloatOps α) (mb : MbLen) : restoreSvalue F mb [
 /-- only the integer 0 is written as "0" -/
 theorem save_eq_zero (F : FloatOps α) (mb : MbLen) (v : Value α) (hs : Savable F v) (h : save F v = [48]) :
     Equiv F (erase v) (.int 0) := by
-  obtain ⟨v', hv, he⟩ := restoreSvalue_save F mb v hs
+  have hz : (saveSize F 0 v).isSome = true := by
+    cases v with
+    | int n => simp [saveSize]
+    | real x => simp [saveSize]
+    | str s => simp [save] at h
+    | obj => simp [save] at h
+    | arr xs => simp [save] at h
+    | cls xs => simp [save] at h
+    | map ps => simp [save] at h
+  obtain ⟨v', hv, he⟩ := restoreSvalue_save F mb v hs hz
   rw [h, restoreSvalue_zero] at hv
   cases hv
   exact he
 
 /-! ## the body of the file -/
+
+/-- a value of the round-trip domain that `svalue_save_size` accepted (nesting within MAX_SAVE_SVALUE_DEPTH; restore
+    refuses deeper text since the nesting fix) -/
+def SavableD (F : FloatOps α) (v : Value α) : Prop := Savable F v ∧ (saveSize F 0 v).isSome = true
+
 
 /-- `restore_object(file, 0)` zeroes the non-static variables first -/
 def clearVar (v : Var α) : Var α := if v.isStatic then v else { v with val := .int 0 }
@@ -163,7 +177,7 @@ theorem saveLines_nz (F : FloatOps α) (z : Bool) : ∀ (ss : List (Var α)),
 theorem restoreLines_body (F : FloatOps α) (mb : MbLen) (z : Bool) : ∀ (ss ls P : List (Var α)),
     ls.map (·.name) = ss.map (·.name) → ls.map (·.isStatic) = ss.map (·.isStatic) →
     (∀ v ∈ ss, nameOK v.name = true) → (ss.map (·.name)).Nodup →
-    (∀ v ∈ ss, v.isStatic = false → Savable F v.val) →
+    (∀ v ∈ ss, v.isStatic = false → SavableD F v.val) →
     (∀ p ∈ P, p.name ∉ ss.map (·.name)) →
     ∃ rs, restoreLines F mb false (splitLines (saveLines F z ss).flatten) (P ++ ls.map clearVar) =
         .done (P ++ rs) ∧ ObjRestored F ss ls rs := by
@@ -185,7 +199,7 @@ theorem restoreLines_body (F : FloatOps α) (mb : MbLen) (z : Bool) : ∀ (ss ls
       obtain ⟨hln, hn'⟩ := hn
       obtain ⟨hls, hst'⟩ := hst
       have hname' : ∀ v ∈ ss', nameOK v.name = true := fun v hv => hname v (by simp [hv])
-      have hsv' : ∀ v ∈ ss', v.isStatic = false → Savable F v.val := fun v hv => hsv v (by simp [hv])
+      have hsv' : ∀ v ∈ ss', v.isStatic = false → SavableD F v.val := fun v hv => hsv v (by simp [hv])
       rw [List.map_cons, List.nodup_cons] at hnd
       obtain ⟨hsn, hnd'⟩ := hnd
       -- the accumulated prefix after this variable
@@ -218,7 +232,7 @@ theorem restoreLines_body (F : FloatOps α) (mb : MbLen) (z : Bool) : ∀ (ss ls
           simp [clearVar, hl, ← hln]
         by_cases hw : (z || save F s.val != [48]) = true
         · -- written
-          obtain ⟨w, hw1, hw2⟩ := restoreSvalue_save F mb s.val hsav
+          obtain ⟨w, hw1, hw2⟩ := restoreSvalue_save F mb s.val hsav.1 hsav.2
           obtain ⟨rs, hrs, ho⟩ := ih ls' (P ++ [⟨s.name, false, w⟩]) hn' hst' hname' hnd' hsv'
             (hP' ⟨s.name, false, w⟩ rfl)
           refine ⟨⟨s.name, false, w⟩ :: rs, ?_, ObjRestored.saved s l w ss' ls' rs hs' hl hln hw2 ho⟩
@@ -232,7 +246,7 @@ theorem restoreLines_body (F : FloatOps α) (mb : MbLen) (z : Bool) : ∀ (ss ls
             rcases hb with hb | rfl | hb
             · exact (hby b hb).2.1
             · omega
-            · exact save_nl F s.val hsav b hb
+            · exact save_nl F s.val hsav.1 b hb
           rw [e1, splitLines_line _ _ hnl, List.map_cons, e2]
           have hstep := restoreLines_var F mb false P (ls'.map clearVar) ⟨s.name, false, .int 0⟩ (save F s.val)
             (splitLines (saveLines F z ss').flatten) w (hname s (by simp)) hPs rfl hw1
@@ -242,7 +256,7 @@ theorem restoreLines_body (F : FloatOps α) (mb : MbLen) (z : Bool) : ∀ (ss ls
           have hz : z = false ∧ save F s.val = [48] := by
             cases z <;> simp at hw ⊢
             exact hw
-          have he := save_eq_zero F mb s.val hsav hz.2
+          have he := save_eq_zero F mb s.val hsav.1 hz.2
           obtain ⟨rs, hrs, ho⟩ := ih ls' (P ++ [⟨s.name, false, .int 0⟩]) hn' hst' hname' hnd' hsv'
             (hP' ⟨s.name, false, .int 0⟩ rfl)
           refine ⟨⟨s.name, false, .int 0⟩ :: rs, ?_, ObjRestored.saved s l (.int 0) ss' ls' rs hs' hl hln he ho⟩
@@ -279,12 +293,21 @@ theorem object_roundtrip {α : Type} (F : FloatOps α) (mb : MbLen) (prog : List
     (hprog : ∀ b ∈ prog, b ≠ 10 ∧ b ≠ 0)
     (hs : objSavable vars = true)
     (hf : ∀ v ∈ vars, v.isStatic = false → FloatsOK F v.val)
+    (hdp : ∀ v ∈ vars, v.isStatic = false → saveVariable F v.val ≠ SaveOut.tooDeep)
     (hlay : live.map (·.name) = vars.map (·.name) ∧ live.map (·.isStatic) = vars.map (·.isStatic)) :
     ∃ res, restoreObject F mb false (some (saveFileText F prog z vars)) live = (1, RoOut.done res) ∧
       ObjRestored F vars live res := by
   obtain ⟨hname, hnd, hsav⟩ := objSavable_spec vars hs
-  have hsv : ∀ v ∈ vars, v.isStatic = false → Savable F v.val :=
+  have hsv0 : ∀ v ∈ vars, v.isStatic = false → Savable F v.val :=
     fun v hv hst => savable_bridge F v.val (hsav v hv hst) (hf v hv hst)
+  have hsv : ∀ v ∈ vars, v.isStatic = false → SavableD F v.val := by
+    intro v hv hst
+    refine ⟨hsv0 v hv hst, ?_⟩
+    have h := hdp v hv hst
+    unfold saveVariable at h
+    cases hq : saveSize F 0 v.val with
+    | none => simp [hq] at h
+    | some n => rfl
   obtain ⟨rs, hrs, ho⟩ := restoreLines_body F mb z vars live [] hlay.1 hlay.2 hname hnd hsv (by simp)
   refine ⟨rs, ?_, ho⟩
   have htext : saveFileText F prog z vars = (35 :: 47 :: prog) ++ 10 :: (saveLines F z vars).flatten := by
@@ -298,7 +321,7 @@ theorem object_roundtrip {α : Type} (F : FloatOps α) (mb : MbLen) (prog : List
     · omega
     · exact (hprog b hb).2
     · omega
-    · exact saveLines_nz F z vars hname hsv b hb
+    · exact saveLines_nz F z vars hname hsv0 b hb
   have hnl : ∀ b ∈ 35 :: 47 :: prog, b ≠ 10 := by
     intro b hb
     simp only [List.mem_cons] at hb
@@ -332,7 +355,7 @@ inductive ObjRestoredNC (F : FloatOps α) (z : Bool) : List (Var α) → List (V
 theorem restoreLines_body_nc (F : FloatOps α) (mb : MbLen) (z : Bool) : ∀ (ss ls P : List (Var α)),
     ls.map (·.name) = ss.map (·.name) → ls.map (·.isStatic) = ss.map (·.isStatic) →
     (∀ v ∈ ss, nameOK v.name = true) → (ss.map (·.name)).Nodup →
-    (∀ v ∈ ss, v.isStatic = false → Savable F v.val) →
+    (∀ v ∈ ss, v.isStatic = false → SavableD F v.val) →
     (∀ p ∈ P, p.name ∉ ss.map (·.name)) →
     ∃ rs, restoreLines F mb true (splitLines (saveLines F z ss).flatten) (P ++ ls) =
         .done (P ++ rs) ∧ ObjRestoredNC F z ss ls rs := by
@@ -354,7 +377,7 @@ theorem restoreLines_body_nc (F : FloatOps α) (mb : MbLen) (z : Bool) : ∀ (ss
       obtain ⟨hln, hn'⟩ := hn
       obtain ⟨hls, hst'⟩ := hst
       have hname' : ∀ v ∈ ss', nameOK v.name = true := fun v hv => hname v (by simp [hv])
-      have hsv' : ∀ v ∈ ss', v.isStatic = false → Savable F v.val := fun v hv => hsv v (by simp [hv])
+      have hsv' : ∀ v ∈ ss', v.isStatic = false → SavableD F v.val := fun v hv => hsv v (by simp [hv])
       rw [List.map_cons, List.nodup_cons] at hnd
       obtain ⟨hsn, hnd'⟩ := hnd
       have hP' : ∀ y : Var α, y.name = s.name → ∀ p ∈ P ++ [y], p.name ∉ ss'.map (·.name) := by
@@ -381,7 +404,7 @@ theorem restoreLines_body_nc (F : FloatOps α) (mb : MbLen) (z : Bool) : ∀ (ss
         have hl : l.isStatic = false := by rw [hls, hs']
         have hsav := hsv s (by simp) hs'
         by_cases hw : (z || save F s.val != [48]) = true
-        · obtain ⟨w, hw1, hw2⟩ := restoreSvalue_save F mb s.val hsav
+        · obtain ⟨w, hw1, hw2⟩ := restoreSvalue_save F mb s.val hsav.1 hsav.2
           have hcond : z = true ∨ save F s.val ≠ [48] := by
             cases z <;> simp at hw ⊢
             exact hw
@@ -400,7 +423,7 @@ theorem restoreLines_body_nc (F : FloatOps α) (mb : MbLen) (z : Bool) : ∀ (ss
             rcases hb with hb | rfl | hb
             · exact (hby b hb).2.1
             · omega
-            · exact save_nl F s.val hsav b hb
+            · exact save_nl F s.val hsav.1 b hb
           rw [e1, splitLines_line _ _ hnl]
           have hstep := restoreLines_var F mb true P ls' l (save F s.val)
             (splitLines (saveLines F z ss').flatten) w hlname hPl hl hw1
@@ -432,12 +455,21 @@ theorem object_roundtrip_noclear {α : Type} (F : FloatOps α) (mb : MbLen) (pro
     (hprog : ∀ b ∈ prog, b ≠ 10 ∧ b ≠ 0)
     (hs : objSavable vars = true)
     (hf : ∀ v ∈ vars, v.isStatic = false → FloatsOK F v.val)
+    (hdp : ∀ v ∈ vars, v.isStatic = false → saveVariable F v.val ≠ SaveOut.tooDeep)
     (hlay : live.map (·.name) = vars.map (·.name) ∧ live.map (·.isStatic) = vars.map (·.isStatic)) :
     ∃ res, restoreObject F mb true (some (saveFileText F prog z vars)) live = (1, RoOut.done res) ∧
       ObjRestoredNC F z vars live res := by
   obtain ⟨hname, hnd, hsav⟩ := objSavable_spec vars hs
-  have hsv : ∀ v ∈ vars, v.isStatic = false → Savable F v.val :=
+  have hsv0 : ∀ v ∈ vars, v.isStatic = false → Savable F v.val :=
     fun v hv hst => savable_bridge F v.val (hsav v hv hst) (hf v hv hst)
+  have hsv : ∀ v ∈ vars, v.isStatic = false → SavableD F v.val := by
+    intro v hv hst
+    refine ⟨hsv0 v hv hst, ?_⟩
+    have h := hdp v hv hst
+    unfold saveVariable at h
+    cases hq : saveSize F 0 v.val with
+    | none => simp [hq] at h
+    | some n => rfl
   obtain ⟨rs, hrs, ho⟩ := restoreLines_body_nc F mb z vars live [] hlay.1 hlay.2 hname hnd hsv (by simp)
   refine ⟨rs, ?_, ho⟩
   have htext : saveFileText F prog z vars = (35 :: 47 :: prog) ++ 10 :: (saveLines F z vars).flatten := by
@@ -451,7 +483,7 @@ theorem object_roundtrip_noclear {α : Type} (F : FloatOps α) (mb : MbLen) (pro
     · omega
     · exact (hprog b hb).2
     · omega
-    · exact saveLines_nz F z vars hname hsv b hb
+    · exact saveLines_nz F z vars hname hsv0 b hb
   have hnl : ∀ b ∈ 35 :: 47 :: prog, b ≠ 10 := by
     intro b hb
     simp only [List.mem_cons] at hb
@@ -488,11 +520,19 @@ theorem objExample_floats : ∀ v ∈ objExample, v.isStatic = false → FloatsO
   · exact deepExample_floatsOK
   · simp [FloatsOK]
 
+theorem objExample_depth : ∀ v ∈ objExample, v.isStatic = false → saveVariable rtF v.val ≠ SaveOut.tooDeep := by
+  intro v hv _
+  simp only [objExample, List.mem_cons, List.not_mem_nil, or_false] at hv
+  rcases hv with rfl | rfl | rfl
+  · simp [saveVariable, saveSize]; split <;> simp
+  · exact deepExample_withinDepth
+  · simp [saveVariable, saveSize]; split <;> simp
+
 example (mb : MbLen) (z : Bool) :
     ∃ res, restoreObject rtF mb false (some (saveFileText rtF [97, 47, 98] z objExample)) objLive =
         (1, RoOut.done res) ∧ ObjRestored rtF objExample objLive res :=
   object_roundtrip rtF mb [97, 47, 98] z objExample objLive (by decide) objExample_savable objExample_floats
-    ⟨rfl, rfl⟩
+    objExample_depth ⟨rfl, rfl⟩
 
 /-- the same object restored without clearing: with `z = false` the variable `[122]` (saved value 0, not
     written) keeps its live value `""` -/
@@ -500,6 +540,6 @@ example (mb : MbLen) (z : Bool) :
     ∃ res, restoreObject rtF mb true (some (saveFileText rtF [97, 47, 98] z objExample)) objLive =
         (1, RoOut.done res) ∧ ObjRestoredNC rtF z objExample objLive res :=
   object_roundtrip_noclear rtF mb [97, 47, 98] z objExample objLive (by decide) objExample_savable
-    objExample_floats ⟨rfl, rfl⟩
+    objExample_floats objExample_depth ⟨rfl, rfl⟩
 
 end NV.C16
